@@ -1585,6 +1585,10 @@ func (d *Ledger) actSched() {
 		}
 		sort.Strings(ks)
 		k := ks[d.R.Intn(len(ks))]
+		if gk := world.GasKeys(sec); d.chance(45) {
+			// the first and the last entry of a section are where an off-by-one in the completeness check shows
+			k = []string{gk[0], gk[len(gk)-1]}[d.R.Intn(2)]
+		}
 		switch d.R.Intn(3) {
 		case 0:
 			g[sec][k] = 0
